@@ -174,3 +174,23 @@ M('nav-relative-drops-last-dir', 'C07', 'urlutils.py',
 M('nav-mutates-base-query', 'C07', 'urlutils.py',
   "            if not query_params:\n                query_params = self.query_params",
   "            if not query_params:\n                query_params = self.query_params\n            else:\n                self.query_params.update(query_params)")
+
+# ---------------------------------------------------------------- C08
+M('remap-registry-not-updated-on-exit', 'C08', 'iterutils.py',
+  "            registry[id_value] = value\n            if not new_items_stack:",
+  "            if not isinstance(value, tuple):\n                registry[id_value] = value\n            if not new_items_stack:")
+M('remap-path-not-restored', 'C08', 'iterutils.py',
+  "                if value is not root:\n                    path += (key,)",
+  "                if value is not root and not (isinstance(value, tuple) and len(path) > 1):\n                    path += (key,)")
+M('remap-exit-set-as-list', 'C08', 'iterutils.py',
+  "        try:\n            new_parent.update(vals)\n        except AttributeError:\n            ret = new_parent.__class__(vals)  # frozensets",
+  "        try:\n            new_parent.update(vals)\n        except AttributeError:\n            ret = set(vals)  # frozensets")
+M('remap-children-reversed-for-dicts', 'C08', 'iterutils.py',
+  "                if new_items:\n                    stack.extend(reversed(list(new_items)))",
+  "                if new_items:\n                    new_items = list(new_items)\n                    stack.extend(new_items if (isinstance(value, Mapping) and len(new_items) == 3) else reversed(new_items))")
+M('remap-shared-visited-once', 'C08', 'iterutils.py',
+  "        elif id_value in registry:\n            value = registry[id_value]\n",
+  "        elif id_value in registry:\n            value = registry[id_value]\n            if isinstance(value, list) and len(value) > 2:\n                value = list(value)\n")
+M('getpath-set-off-by-one', 'C08', 'iterutils.py',
+  "                        cur = next(itertools.islice(cur, seg, None))",
+  "                        cur = next(itertools.islice(cur, seg if seg < 2 else seg - 1, None))")
